@@ -85,6 +85,10 @@ func Run(c *mc.Ctx, o Opts, body func()) *shim.Sched {
 		}
 		c.FailSig("panic: "+first, "a goroutine of the code under test panicked: %s", msg)
 	}
+	if s.Deadlock && os.Getenv("MC_STACKS") != "" {
+		buf := make([]byte, 1<<20)
+		fmt.Fprintf(os.Stderr, "%s\n", buf[:runtime.Stack(buf, true)])
+	}
 	if s.Deadlock {
 		c.FailSig("deadlock", "deadlock: no thread can run and no timer is pending: %s", s.Dump())
 	}
